@@ -38,6 +38,19 @@ contract(P + "Properties.property", requires="not attr_absent(self,'element') an
 # __getitem__: which schema governs a key (Draft-6 6.18-6.20).  declared(k) = the property whose JSON name is k;
 # pats(k) = the pattern elements whose regex matches k.
 contract(P + "Properties.__getitem__", requires=SELF_WF + " and is_str(key)",
-         returns="isinstance(result, _Property) and not attr_absent(result,'element') and is_obj(result.element) and not attr_absent(result,'name')",
+         returns="isinstance(result, _Property) and not attr_absent(result,'element') and is_obj(result.element) and not attr_absent(result,'name') and "
+                 "not attr_absent(result,'required') and not attr_absent(result,'source') and not attr_absent(result,'parent') and "
+                 "(is_none(result.name) or is_str(result.name))",
+         ghost={"function": "prop_for(self, key)", "function_facts": True},
          result_cls="_Property", kinds={"key": "str", "prop": "_Property", "self.pattern": "PatternDict"},
+         props=["C01", "C04", "C05", "C08", "C13", "C14"])
+
+
+contract(P + "Properties.__contains__", requires=SELF_WF + " and is_str(key)", returns="is_bool(result)", result_kind="bool",
+         kinds={"key": "str"}, props=["C01", "C08"])
+
+contract(P + "Properties.__call__", requires=SELF_WF + " and dict_wf(value) and forall(lambda j: not is_np(val_at(value, j)), len(value))",
+         returns="is_dict(result)",
+         raises=[(("ValidationError", "TypeError"), "exists(lambda j: not sem(prop_for(self, key_at(value, j)).element, val_at(value, j)), len(value))")],
+         kinds={"value": "dict", "prop": "_Property"}, result_kind="dict", lemmas=["DICT-ITEM"],
          props=["C01", "C04", "C05", "C08", "C13", "C14"])
